@@ -250,9 +250,9 @@ def round_number(value: Union[float, int, Decimal]) -> Union[float, int, Decimal
 
     number = Decimal(value)
     if number > 0:
-        return type(value)(number.quantize(Decimal('1'), rounding='ROUND_HALF_UP'))
+        return type(value)(number.to_integral_value(rounding='ROUND_HALF_UP'))
     else:
-        return type(value)(number.quantize(Decimal('1'), rounding='ROUND_HALF_DOWN'))
+        return type(value)(number.to_integral_value(rounding='ROUND_HALF_DOWN'))
 
 
 def normalized_seconds(seconds: Union[int, Decimal]) -> str:
